@@ -238,6 +238,20 @@ class KauriOracle:
                              {"leaf": j, "size": size, "min_samples_split": p["min_samples_split"]})
             if self.depth.get(j, 0) >= max_depth:
                 self.violate("C09:explored_deep_leaf", {"leaf": j, "depth": self.depth.get(j), "max_depth": max_depth})
+        # C08: the best admissible split is searched among ALL leaves that may still be split: a leaf that satisfies the
+        # structural limits and still offers a threshold (two distinct values on some feature, whichever features are drawn
+        # at this step) must be offered to the finder
+        offered = set(int(j) for j in leaves)
+        for j in range(int(n_leaves)):
+            if j in offered:
+                continue
+            idx = np.where(Z[j] == 1)[0]
+            if len(idx) >= p["min_samples_split"] and self.depth.get(j, 0) < max_depth and len(idx) >= 2 * int(min_leaf):
+                Xj = X[idx]
+                if bool(np.any(Xj.max(axis=0) > Xj.min(axis=0))):
+                    self.violate("C08:splittable_leaf_not_offered", {"leaf": j, "size": int(len(idx)), "depth": self.depth.get(j, 0),
+                                                                     "offered": sorted(offered), "event": self.events})
+                    break
         # C08: the objective is the user's kernel — the matrix handed to the finder must be the kernel of THIS call
         if self.events == 1 and self.expected_kernel is not None:
             ek = self.expected_kernel
